@@ -1361,6 +1361,7 @@ var knownInputs = []known{
 	{"M", "known-M-empty-function-call-with-default-argument-dropped", "(function() {\n  function f(a = $(1, \"default\")) {}\n  f();\n  $(2, \"after\");\n})();", "(function() {\n  function f(a = $(1, \"default\")) {}\n  f();\n  $(2, \"after\");\n})();", api.LoaderJS, true, false},
 	{"N", "known-N-switch-with-undecided-bigint-case-takes-default", "(function() {\n  switch (1n) { case 5n: $(1, \"a\"); break; case 0x1n: case 3n: $(2, \"b\"); break; default: $(3, \"d\"); }\n})();", "(function() {\n  switch (1n) { case 5n: $(1, \"a\"); break; case 0x1n: case 3n: $(2, \"b\"); break; default: $(3, \"d\"); }\n})();", api.LoaderJS, true, false},
 	{"O", "known-O-switch-case-var-after-break-lost", "(function() {\n  \"use strict\";\n  function f(y) { switch (y) { case 0: $(1, \"a\"); break; var x; } x = 1; return x; }\n  try { $(2, f(0)); } catch (e) { $(3, e instanceof ReferenceError ? \"ReferenceError\" : \"other\"); }\n})();", "(function() {\n  \"use strict\";\n  function f(y) { switch (y) { case 0: $(1, \"a\"); break; var x; } x = 1; return x; }\n  try { $(2, f(0)); } catch (e) { $(3, e instanceof ReferenceError ? \"ReferenceError\" : \"other\"); }\n})();", api.LoaderJS, true, false},
+	{"P", "known-P-values-look-the-same-ignores-typeof-identifier-mark", "(function() {\n  function t(a) { return a ? typeof undeclaredP : typeof (0, undeclaredP); }\n  try { $(1, t(0)); } catch (e) { $(2, e instanceof ReferenceError ? \"ReferenceError\" : \"other\"); }\n})();", "(function() {\n  function t(a) { return a ? typeof undeclaredP : typeof (0, undeclaredP); }\n  try { $(1, t(0)); } catch (e) { $(2, e instanceof ReferenceError ? \"ReferenceError\" : \"other\"); }\n})();", api.LoaderJS, true, false},
 	{"G", "known-G-pow-finite-result-not-within-rounding-error", "enum E { A = 1e300 ** 0.1 }\n$(1, E.A);", "$(1, 1e300 ** 0.1);", api.LoaderTS, false, false},
 }
 
